@@ -323,6 +323,9 @@ async fn apply(dev: &mut Dev, st: &mut St, op: &Op, marker: &str, scratch: &Path
             dev.account
                 .update_secret(&id.unwrap(), meta, Some(secret), AccessOptions { folder: Some(folder), ..Default::default() })
                 .await?;
+            // the new value has no custom fields: an external file that
+            // was attached as a field of this secret is gone with them
+            st.attachments.retain(|(slot, _)| slot != s);
         }
         Op::DeleteSecret { s } => {
             let (_, f, id, _) = st.secrets[*s].clone();
